@@ -75,6 +75,7 @@ USER_SOURCES = {
                            "raise E16('odd args')", 'E16'),
     'literal-eval-syntaxerror': (['import ast'], "ast.literal_eval('[1, 2\\n 3]')", 'SyntaxError'),
     'compile-in-string-syntaxerror': (['import ast'], "ast.parse('def (:')", 'SyntaxError'),
+    'closed-stdout-print': (['import sys'], "sys.stdout.close() or print('after close')", 'ValueError'),
     'int-too-long': ([], "int('9' * 5000)", 'ValueError'),
     'chained-from': ([], "raise ValueError('outer') from KeyError('inner')", 'ValueError'),
     'chained-from-none': ([], "raise TypeError('no context') from None", 'TypeError'),
